@@ -149,6 +149,30 @@ DemandVector(p, q, u, k) ==
   /\ Resolvable(p.ra = q.ra, Seam(p, q, u), GeBin(d, k, BigBin), GeBin(d, k, FineBin),
                 ColatFine(p, k, u) /\ ColatFine(q, k, u))
 
+(* ===================== 4b. numeric forms of the arguments =========================== *)
+(* The functions are functions of the VALUES of their arguments: an argument whose value is  *)
+(* integral may be handed over as a float64 or with any integer type that holds it (numpy    *)
+(* arrays and scalars of that type, Python int), and the specified outcome is the same.       *)
+(* Which integer forms a case admits is decided here; the harness rotates through them.       *)
+IntForms == {"int8", "uint8", "int16", "uint16", "int32", "uint32", "int64", "uint64", "pyint"}
+FormLo(f) == CASE f = "int8" -> -128 [] f = "int16" -> -32768 [] f \in {"uint8", "uint16", "uint32", "uint64"} -> 0
+               [] OTHER -> -1000000
+FormHi(f) == CASE f = "int8" -> 127 [] f = "uint8" -> 255 [] f = "int16" -> 32767 [] f = "uint16" -> 65535 [] OTHER -> 1000000
+FormsFor(vals) == {f \in IntForms : \A v \in vals : FormLo(f) <= v /\ v <= FormHi(f)}
+FormClass(f) == CASE f \in {"int8", "uint8"} -> "8bit" [] f \in {"int16", "uint16"} -> "16bit" [] f = "pyint" -> "py"
+                  [] f \in {"int32", "uint32", "int64", "uint64"} -> "wide" [] OTHER -> "none"
+EAIntegral(x) == x.m = 0 /\ x.b % 8 = 0
+DistForms(c) == LET xs == {c.p.ra, c.p.dec, c.q.ra, c.q.dec} IN
+                IF \A x \in xs : EAIntegral(x) THEN FormsFor({x.b \div 8 : x \in xs}) ELSE {}
+PosForms(pos) == IF pos.lon % 10 = 0 /\ pos.lat % 10 = 0 THEN FormsFor({pos.lon \div 10, pos.lat \div 10}) ELSE {}
+FormFns == {"gcirc", "radec_to_munu", "munu_to_radec", "stripe_to_eta", "stripe_to_incl",
+            "angles_to_x", "x_to_angles", "cap_distance"}
+(* record "form" = fn called with integer-typed arguments (form, arr = arrays rather than    *)
+(* scalars) against the same call with the same values as float64: disc = largest difference *)
+(* of the results (ppb for gcirc, nano-degrees otherwise; 0 = identical)                      *)
+FormTol(r) == IF r.fn = "gcirc" THEN 1 ELSE PosTolNdeg(r.polar)
+FormIndependent(r) == r.fn \in FormFns /\ r.form \in IntForms /\ ~r.raised /\ ~r.nan /\ r.disc <= FormTol(r)
+
 (* Named deviation D-C18-1: the half-differences are formed AFTER each coordinate was      *)
 (* converted to radians, so they carry the rounding error of the radian values (~2e-16     *)
 (* rad) instead of being exact; the relative error of the distance is ~4e-16 rad / d and   *)
@@ -166,7 +190,7 @@ ExpectedDist(c) ==
   LET d == Dist(c.p, c.q, c.units) IN
   [d |-> d, scale |-> OutScale(c.units), zero |-> (c.p = c.q),
    demand |-> DemandVector(c.p, c.q, c.units, c.k), tolppb |-> RelTolPpb, slackppb |-> RangeSlackPpb,
-   dev1 |-> Dev_SubtractsRadians(d, c.k)]
+   dev1 |-> Dev_SubtractsRadians(d, c.k), forms |-> DistForms(c)]
 
 (* spec-level laws of the exact families *)
 DistCaseOK(c) == c.k >= KMin /\ PointOK(c.p, c.units) /\ PointOK(c.q, c.units) /\ Applicable(c.p, c.q, c.units) # {}
